@@ -707,6 +707,13 @@ impl PredicatePushdown {
         // Build result: common conditions + simplified OR
         let mut result = common;
 
+        // A branch with nothing left was exactly the common conditions:
+        // `(A AND B) OR A` is `A AND (B OR TRUE)`, i.e. just `A`. Dropping
+        // only that branch would leave `A AND B`.
+        if remaining_branches.iter().any(|b| b.is_empty()) {
+            return Some(result);
+        }
+
         // Only add the OR if branches have remaining conditions
         let non_empty_branches: Vec<Expr> = remaining_branches
             .into_iter()
